@@ -173,7 +173,7 @@ def replace_nodes(roots, repl):
     return [m[r.id] for r in roots]
 
 
-def cut_shared(pairs, ops=("call", "fdiv"), prefix="cut"):
+def cut_shared(pairs, ops=("call", "fdiv"), prefix="cut", min_size=None):
     """Generalise an equality goal: every sub-DAG with an operation in `ops` that occurs on BOTH sides is replaced by a fresh
     variable (the same one on both sides).  Proving the generalised goal for all values of the fresh variables proves the
     original one; relations between the cut terms are forgotten, so this can only lose provability, never soundness.
@@ -181,6 +181,13 @@ def cut_shared(pairs, ops=("call", "fdiv"), prefix="cut"):
     L = {n.id: n for n in dag.topo([l for _, l, _ in pairs])}
     Rr = {n.id: n for n in dag.topo([r for _, _, r in pairs])}
     shared = [L[i] for i in L if i in Rr and L[i].op in ops]
+    if min_size:
+        # additionally: every shared sub-DAG with at least min_size nodes (any operation)
+        sz = {}
+        for n in dag.topo([l for _, l, _ in pairs]):
+            sz[n.id] = 1 + sum(sz[a.id] for a in n.args if isinstance(a, Node))
+        have = set(n.id for n in shared)
+        shared += [L[i] for i in L if i in Rr and i not in have and L[i].op not in ("var", "const", "special") and sz.get(i, 0) >= min_size]
     repl, names = {}, {}
     for k, n in enumerate(sorted(shared, key=lambda n: n.id)):
         nm = "%s%d" % (prefix, k)
